@@ -50,20 +50,31 @@ C07  Name obfuscation is a consistent, capture-free renaming — property theore
                                  `Obfuscator.resolve` answers per occurrence (`rhoFin`) satisfy `condProgram` and `isoCond`.
   excluded / kf07*_excluded      the three recorded deviation classes as structural predicates on the tree (Proofs/ObfExcluded.lean) with
                                  kernel-evaluated witnesses: the witness programs are excluded, not aligned and their binding structure is NOT preserved.
-MISSING (the one lemma between the model invariants and `alignedOf`):
-    aligned_of_not_excluded :  prewalkHook tablesGen fl p = .ok fin → excluded fl.obfuscateGlobals p = false → alignedOf fl p = some true
-  It needs an analysis of the Gen.Defs-driven walk that is not done: (i) the walk hands the Resolve / Declare hooks exactly the Identifier at
-  the path it reports, in the scope whose node is the innermost function / catch clause (path accuracy and PushScope/PopScope bracketing per
-  node kind); (ii) every registered reference is a key of `referenced_symbols` of every scope up to its declaring one (registration + the
-  proved leak invariant); (iii) then `refCond` at a reference follows from `remap_injective_visible` (resolve one-to-one on those keys) and
-  `remap_tables_capture_free`, and `isoCond` from the one-to-one tables and `top_level_unchanged`.  The check tests the implication on every generated
-  program (obligation `model: not excluded implies aligned`); no counterexample in the runs so far.
+  capture_free_of_walk_facts     THE LINK "invariants + alignment ⇒ same resolution", for SIMPLE programs (function and global scopes only: no catch
+                                 clause, no label, no named function expression): if the WALK FACTS hold (`factsProgram`, Proofs/ObfFacts.lean —
+                                 decidable book-keeping only: every function node has its own scope record under the record of the enclosing
+                                 function with exactly the function's parameters and hoisted declarations as `local_declared_symbols`; every
+                                 Identifier is registered in the record of its innermost function; a reference is a key of that scope's
+                                 `referenced_symbols`) and no generated name is the word `arguments`, then `condProgram` holds for the obfuscator's
+                                 renaming: every declaration and reference is renamed by its own environment record and NO reference is captured.
+                                 Proved from `remap_injective_visible`, the table facts, the leak invariant and declared ⊆ referenced
+                                 (`finalize_chainGood`, `lookup_link`): the replacement tables never enter the hypotheses.
+  binding_preserved_simple_partial   walk facts + `noArgsValue` + `isoCond` (tables one-to-one per record / identity where names are kept)
+                                 ⇒ `bindingPreserved`.
+STILL MISSING for `aligned_of_not_excluded`:
+  (i)  the walk facts themselves from the Gen.Defs-driven walk (`factsProgram` is evaluated per program: driver `facts`, obligation in the
+       check) — needs a per-node-kind analysis of the rule interpreter (which attributes a definition walks, where PushScope/PopScope sit);
+  (ii) `isoCond` from the one-to-one tables (needs "every binder of Spec.Scope's output names a declared symbol of its record", one more
+       induction over the resolver);
+  (iii) the same link for catch clauses, labels and named function expressions (environment records without / with shared scopes).
+  The check evaluates `alignedOf` on every generated program not in `excluded` (obligation `model: not excluded implies aligned`).
 -/
 import CalmVerif.Proofs.ObfInjTree
 import CalmVerif.Proofs.ObfOnlyIdentFinal
 import CalmVerif.Proofs.ObfRename
 import CalmVerif.Proofs.ObfBindIso
 import CalmVerif.Proofs.ObfExcluded
+import CalmVerif.Proofs.ObfSimple4
 namespace CalmVerif.Props.C07
 open CalmVerif CalmVerif.Unparse CalmVerif.Obf
 
@@ -285,6 +296,27 @@ theorem binding_preserved_pointwise (fl : Flags) (program : Val) (fin : Final)
   have _ := hfin
   exact resolveProgram_rename (tauFin fin) (rhoFin fin) program h
 
+/-- **capture_free_of_walk_facts** (simple programs; Proofs/ObfLink.lean, ObfSimple*.lean). -/
+theorem capture_free_of_walk_facts (fl : Flags) (program : Val) (st : St) (fin : Final)
+    (hpre : prewalk tablesGen fl.shadowFuncname program = .ok st)
+    (hfin : finalize Gen.ObfData.charset fl st = .ok fin) (hna : noArgsValue fin = true)
+    (hfacts : ∀ g, st.stack = [g] → factsProgram fin (recsOf [] (closeFrame g) fin.tree) program = true) :
+    condProgram (tauFin fin) (rhoFin fin) program = true :=
+  cond_of_walk_facts fl program st fin charset_ok hpre hfin hna hfacts
+
+/-- **binding_preserved_simple_partial**: for simple programs the binding structure is preserved as soon as the walk facts
+hold, no generated name is `arguments`, and the tables are one-to-one / the identity where names are kept. -/
+theorem binding_preserved_simple_partial (fl : Flags) (program : Val) (st : St) (fin : Final)
+    (hpre : prewalk tablesGen fl.shadowFuncname program = .ok st)
+    (hfin : finalize Gen.ObfData.charset fl st = .ok fin) (hna : noArgsValue fin = true)
+    (hfacts : ∀ g, st.stack = [g] → factsProgram fin (recsOf [] (closeFrame g) fin.tree) program = true)
+    (hiso : isoCond (tauFin fin) fl.obfuscateGlobals (Spec.Scope.resolveProgram program) = true) :
+    bindingPreserved fl program = some true := by
+  apply binding_preserved_partial
+  have hc := capture_free_of_walk_facts fl program st fin hpre hfin hna hfacts
+  unfold alignedOf prewalkHook
+  simp only [hpre, hfin, hc, hiso, Bool.and_self]
+
 /-! ### negation witnesses of the known findings (evaluated in the kernel) -/
 
 /-- `function f(){try{}catch(e){var e=1}return e}` -/
@@ -339,6 +371,10 @@ theorem arguments_regression :
     bindingPreserved (minifyFlags true true) argsA = some true ∧
     bindingPreserved (minifyFlags false false) argsB = some true ∧ alignedOf (minifyFlags false false) argsB = some true ∧
     bindingPreserved (minifyFlags true false) argsC = some true ∧ alignedOf (minifyFlags true false) argsC = some true := by
+  decide +kernel
+
+/-- the walk facts hold on the closure-heavy program (a simple program), for both flag settings -/
+theorem ok_program_facts : factsOf (minifyFlags false false) okP = some true ∧ factsOf (minifyFlags true true) okP = some true := by
   decide +kernel
 
 /-! ### the hypotheses are satisfiable -/
